@@ -62,9 +62,19 @@ def norm(t):
         return t
     k = t[0]
     if k == 'call' and called(t[1], *LEN_FNS) and len(t[2]) == 1:
-        return _len_of(norm(base_of(t[2][0])))
+        b0 = base_of(t[2][0])
+        from pat import slice_tail1
+        tl = slice_tail1(b0)
+        if tl is not None and not is_call(b0, 'Index::index'):
+            return ('bin', 'Sub', _len_of(norm(base_of(tl))), ('const', 1, 'usize'))     # len(s.split_first()?.1) = len(s) - 1
+        if is_call(b0, 'Index::index') and len(b0[2]) == 2 and index_ranges(b0[2][1])[0] == 'range':
+            return norm_slice_len(b0)      # len(s[a..b]) = b - a
+        return _len_of(norm(b0))
     if k == 'len':
-        return _len_of(norm(base_of(t[1])))
+        b0 = base_of(t[1])
+        if is_call(b0, 'Index::index') and len(b0[2]) == 2 and index_ranges(b0[2][1])[0] == 'range':
+            return norm_slice_len(b0)
+        return _len_of(norm(b0))
     if k == 'bin':
         return ('bin', t[1], norm(t[2]), norm(t[3]))
     if k == 'cast':
@@ -182,8 +192,9 @@ class Knowledge:
                 self.pf.add_cmp('Le', hi_t, base)
                 if lo is not None:
                     self.pf.add_cmp('Le', norm(lo), hi_t)
-        elif n.endswith('::first') or n.endswith('::last') or n.endswith('pop_front') or n.endswith('::pop'):
-            pass
+        elif n.endswith(('::first', '::last', '::split_first', '::split_last', '::first_mut', '::last_mut')):
+            # Some => the slice is not empty
+            self.pf.add_cmp('Ge', ('len', norm(base_of(x[2][0]))), ('const', 1, 'usize'))
 
     def typed(self, a):
         ty = None
@@ -303,7 +314,7 @@ class Knowledge:
     def kind_of(self, t):
         if t[0] == 'call':
             n = canon(t[1])
-            if n.endswith(('::get', '::get_mut', '::first', '::last', '::pop_front', '::pop_back', '::pop', '::next', '::ok', '::as_str', '::from_u32',
+            if n.endswith(('::get', '::get_mut', '::first', '::last', '::split_first', '::split_last', '::pop_front', '::pop_back', '::pop', '::next', '::ok', '::as_str', '::from_u32',
                            '::checked_add', '::checked_sub', '::as_object', '::as_array', '::as_mut', '::as_ref', '::from_digit')):
                 return 'Option'
             if n.endswith(('::try_into', '::from_utf8', '::parse', '::ok_or', '::read_u32', '::write_u32', '::write_all', '::compact_encode', '::try_from')):
